@@ -6,7 +6,6 @@ import (
 	"errors"
 	"fmt"
 	"math/rand/v2"
-	"reflect"
 	"strings"
 	"testing"
 	"testing/synctest"
@@ -73,6 +72,7 @@ type fsmServer struct {
 	c        *Cluster
 	shutdown chan struct{}
 	blocking uint64
+	shells   map[*consul.Server]bool // shells on which real read endpoints have parked queries
 }
 
 func (f *fsmServer) ConsistentRead() error             { return nil }
@@ -96,6 +96,8 @@ type bqTask struct {
 	lastRes string
 	// received: the result of the last answer the caller got
 	received string
+	// endpoint: the query is served by the real RPC endpoint (KVS.Get), not by a closure of this harness
+	endpoint bool
 	done     chan struct{}
 	idx      uint64
 	res      string
@@ -107,6 +109,26 @@ func (t *bqTask) start(fs *fsmServer) {
 	t.done = make(chan struct{})
 	t.started = time.Now()
 	min := t.min
+	if t.endpoint && strings.HasPrefix(t.q.Name, "KVSGet(") {
+		// the real KVS.Get endpoint on the leader's shell, parked on the fake clock like the others
+		shell := fs.c.Shell
+		if err := consul.VerifServeReads(shell); err != nil {
+			panic(err)
+		}
+		fs.shells[shell] = true
+		go func() {
+			defer close(t.done)
+			args := &structs.KeyRequest{Datacenter: "dc1", Key: t.q.Key, QueryOptions: structs.QueryOptions{MinQueryIndex: min, MaxQueryTime: 5 * time.Minute}}
+			var reply structs.IndexedDirEntries
+			err := consul.VerifKVSGet(shell, args, &reply)
+			var ent *structs.DirEntry
+			if len(reply.Entries) > 0 {
+				ent = reply.Entries[0]
+			}
+			t.idx, t.res, t.err = reply.Index, simkit.CanonOpt(ent, nil, false)+"|", err
+		}()
+		return
+	}
 	go func() {
 		defer close(t.done)
 		opts := structs.QueryOptions{MinQueryIndex: min, MaxQueryTime: 5 * time.Minute}
@@ -120,7 +142,7 @@ func (t *bqTask) start(fs *fsmServer) {
 				// what the endpoints of single-item reads do: "no such item" is not an answer to wait on,
 				// unless the item was there before (then the caller must hear that it is gone: what the
 				// scheduler believes the query has seen is not updated here)
-				if _, item, _ := t.q.Run(s, nil); item == nil || (reflect.ValueOf(item).Kind() == reflect.Ptr && reflect.ValueOf(item).IsNil()) {
+				if qr.Result == "nil" { // (judged on the one read just made: a second read could see a later state)
 					t.lastRes = t.received // the caller still believes what it last received
 					return blockingquery.ErrNotFound
 				}
@@ -183,7 +205,7 @@ func (C06) execute(p *Plan, r *simkit.Run) *simkit.Violation {
 	gwPrev := ""
 
 	// a few queries go through the real blockingquery.Query, parked on the fake clock
-	fs := &fsmServer{c: c, shutdown: make(chan struct{})}
+	fs := &fsmServer{c: c, shutdown: make(chan struct{}), shells: map[*consul.Server]bool{}}
 	var tasks []*bqTask
 	pickQ := simkit.NewRNG(uint64(len(p.Steps))*7919 + uint64(len(battery)))
 	var singles []Query
@@ -207,15 +229,22 @@ func (C06) execute(p *Plan, r *simkit.Run) *simkit.Violation {
 			idx = 1
 		}
 		t := &bqTask{q: q, min: idx, lastRes: qr.Result + "|" + qr.Err, received: qr.Result + "|" + qr.Err}
+		t.endpoint = q.Key != "" && qr.Err == "" && pickQ.IntN(2) == 0
 		t.start(fs)
 		tasks = append(tasks, t)
 	}
 	defer func() {
 		close(fs.shutdown)
+		for sh := range fs.shells {
+			consul.VerifStopReads(sh)
+		}
 		synctest.Wait()
 	}()
 
 	afterCommit := func(e Entry) {
+		// the parked queries woken by this commit evaluate now, against this state - not at some later point
+		// of a step that goes on (a lost reply is followed by a failover and a replay into a new store)
+		synctest.Wait()
 		if viol != nil {
 			return
 		}
